@@ -30,7 +30,7 @@ Init ==
   /\ agenda = {[t |-> 0, prio |-> URG, k |-> p, e |-> 2 * p] : p \in 1..NProc}
   /\ procs = [p \in 1..NProc |-> [pe |-> 2 * p - 1, tgt |-> 2 * p, alive |-> TRUE, n |-> 0, catch |-> 0]]
   /\ cur = NoCur /\ run = NoRun
-  /\ top = [mode |-> "top", uk |-> "none", ue |-> 0, n |-> Len(ResSpec) + NProc]
+  /\ top = [mode |-> "top", uk |-> "none", ue |-> 0, ut |-> 0, n |-> Len(ResSpec) + NProc]
   /\ log = <<>>
   /\ script = <<MkOps \o SpawnOps>> \o [p \in 1..NProc |-> <<>>]
   /\ res = [i \in 1..Len(ResSpec) |->
